@@ -1012,3 +1012,53 @@ Proof.
   - destruct (b_ringing (w_bot w)); [|discriminate]. destruct (tick fuel w) as [w1 [e|]]; discriminate.
   - discriminate.
 Qed.
+
+(* ------------------------------------------------------------------ C01 / C17: cover bells *)
+(* The generator's start row (built for the method's stage) is a prefix of the Bot's opening row (built
+   for the tower): the surplus bells follow in ascending order.  Hence a method row - a permutation of
+   the start row - padded with the opening row's tail is a permutation of the opening row, i.e. a
+   complete row of the tower. *)
+Lemma seq1_app n m : seq1 (n + m) = seq1 n ++ map (fun i => n + i) (seq1 m).
+Proof.
+  induction m as [|m IH]; cbn [seq1 map]; [now rewrite Nat.add_0_r, app_nil_r|].
+  rewrite Nat.add_succ_r. cbn [seq1]. rewrite IH, map_app, app_assoc. cbn [map]. rewrite Nat.add_succ_r. reflexivity.
+Qed.
+
+Lemma add_missing_prefix cands : forall r, exists extra, add_missing cands r = r ++ extra.
+Proof.
+  induction cands as [|c cands IH]; intros r; cbn [add_missing]; [exists []; now rewrite app_nil_r|].
+  destruct (mem_nat c r).
+  - apply IH.
+  - destruct (IH (r ++ [c])) as [e He]. exists (c :: e). rewrite He, <- app_assoc. reflexivity.
+Qed.
+
+Lemma opening_row_extends_start_row stage n custom sr op :
+  stage <= n ->
+  generate_starting_row stage custom = Ok sr -> generate_starting_row n custom = Ok op ->
+  exists extra, op = sr ++ extra.
+Proof.
+  intros Hle. unfold generate_starting_row, rounds.
+  destruct custom as [[c|]|]; try discriminate.
+  - destruct (has_dup c); [discriminate|].
+    destruct (stage <=? MAX_BELL); [|discriminate]. destruct (n <=? MAX_BELL); [|discriminate].
+    intros H1 H2. inversion H1; inversion H2; subst.
+    replace n with (stage + (n - stage)) by lia. rewrite seq1_app, add_missing_app.
+    apply add_missing_prefix.
+  - destruct (stage <=? MAX_BELL); [|discriminate]. destruct (n <=? MAX_BELL); [|discriminate].
+    intros H1 H2. inversion H1; inversion H2; subst.
+    replace n with (stage + (n - stage)) by lia. rewrite seq1_app. eauto.
+Qed.
+
+Theorem cover_padding_is_complete_row stage n custom sr op r :
+  stage <= n ->
+  generate_starting_row stage custom = Ok sr -> generate_starting_row n custom = Ok op ->
+  Permutation.Permutation r sr ->
+  Permutation.Permutation (if length r <? length op then r ++ skipn (length r) op else r) op.
+Proof.
+  intros Hle H1 H2 HP. destruct (opening_row_extends_start_row stage n custom sr op Hle H1 H2) as [extra ->].
+  pose proof (Permutation.Permutation_length HP) as HL.
+  rewrite app_length. destruct (Nat.ltb_spec (length r) (length sr + length extra)) as [Hlt|Hge].
+  - rewrite HL. rewrite skipn_app, skipn_all, Nat.sub_diag. cbn [skipn app].
+    apply Permutation.Permutation_app_tail. exact HP.
+  - assert (extra = []) by (destruct extra; [reflexivity | cbn in Hge; lia]). subst. rewrite app_nil_r. exact HP.
+Qed.
